@@ -66,7 +66,7 @@ prop('C06',
      technique='structural dominance of the direct-hit exits; exhaustive key table check')
 
 prop('C07',
-     rules=[('API-ARGSWAP', ['abbreviation', 'css_abbreviation', 'markup', 'stylesheet', 'scanner', 'scanner_utils', 'token_scanner', 'output_stream', 'config', 'expand']), ('API-ONESHOT', ['abbreviation', 'css_abbreviation', 'markup', 'stylesheet', 'scanner', 'scanner_utils', 'token_scanner', 'output_stream', 'config', 'expand']), ('RNG-NEGSLICE', ['abbreviation', 'css_abbreviation', 'markup', 'stylesheet', 'scanner', 'scanner_utils', 'token_scanner', 'output_stream', 'config', 'expand']), ('SIB-PREDSWAP', ['abbreviation', 'css_abbreviation', 'markup', 'stylesheet', 'scanner', 'scanner_utils', 'token_scanner', 'output_stream', 'config', 'expand']), 'TBL-CSSABBR', ('TBL-ATTRS', ['markup.implicit_tag']), ('TBL-CONFIG', ['stylesheet']), ('TBL-CONVERT', ['abbreviation']), ('TBL-NUMBER', ['css_abbreviation']), 'TAB-MEMBER', 'EXC-NEXT', ('PIN-WRAPTEXT', ['abbreviation.convert']), 'EXC-RAISE/expand', 'EXC-VISITOR', 'EXC-FMT', 'EXC-JOIN', 'EXC-NUMCONV', 'EXC-KEY', 'TAB-VOCAB', 'TAB-KEYS-PROFILE', 'CENSUS',
+     rules=['EXC-ARGKIND', ('API-ARGSWAP', ['abbreviation', 'css_abbreviation', 'markup', 'stylesheet', 'scanner', 'scanner_utils', 'token_scanner', 'output_stream', 'config', 'expand']), ('API-ONESHOT', ['abbreviation', 'css_abbreviation', 'markup', 'stylesheet', 'scanner', 'scanner_utils', 'token_scanner', 'output_stream', 'config', 'expand']), ('RNG-NEGSLICE', ['abbreviation', 'css_abbreviation', 'markup', 'stylesheet', 'scanner', 'scanner_utils', 'token_scanner', 'output_stream', 'config', 'expand']), ('SIB-PREDSWAP', ['abbreviation', 'css_abbreviation', 'markup', 'stylesheet', 'scanner', 'scanner_utils', 'token_scanner', 'output_stream', 'config', 'expand']), 'TBL-CSSABBR', ('TBL-ATTRS', ['markup.implicit_tag']), ('TBL-CONFIG', ['stylesheet']), ('TBL-CONVERT', ['abbreviation']), ('TBL-NUMBER', ['css_abbreviation']), 'TAB-MEMBER', 'EXC-NEXT', ('PIN-WRAPTEXT', ['abbreviation.convert']), 'EXC-RAISE/expand', 'EXC-VISITOR', 'EXC-FMT', 'EXC-JOIN', 'EXC-NUMCONV', 'EXC-KEY', 'TAB-VOCAB', 'TAB-KEYS-PROFILE', 'CENSUS',
             'SCN-CORE', ('SCN-PROGRESS', EXPAND_MODS), ('SCN-OVER', EXPAND_MODS), 'EXC-RANDINT', 'NUM-LINEAR',
             ('EXC-INDEX', ['abbreviation', 'markup', 'stylesheet', 'css_abbreviation', 'scanner', 'scanner_utils', 'token_scanner', 'config', 'output_stream', 'list_utils', 'expand', 'snippets']), 'EXC-RET-STR'],
      explanation='Explicit raises reachable from expand are one of the two parse errors (D, call graph). Implicit internal errors are decided by '
@@ -87,7 +87,7 @@ prop('C08',
                   'strings and numbers are immutable; only container/object mutation is tracked'])
 
 prop('C09',
-     rules=[('API-ARGSWAP', ['html_matcher', 'scanner_utils', 'scanner']), ('API-ONESHOT', ['html_matcher', 'scanner_utils', 'scanner']), ('RNG-NEGSLICE', ['html_matcher', 'scanner_utils', 'scanner']), ('SIB-PREDSWAP', ['html_matcher', 'scanner_utils', 'scanner']), ('OWN-GLOBAL', ['html_matcher', 'scanner_utils']), 'RNG-STRICT/html', 'TAB-VOID', 'EXC-THROWS', 'EXC-RAISE/matcher', ('RNG-STOP', ['html_matcher']), ('RNG-FRAME', ['html_matcher']), ('SCN-REST', ['html_matcher', 'scanner_utils']), ('SCN-OVER', ['html_matcher', 'scanner_utils']), ('SCN-PROGRESS', ['html_matcher', 'scanner_utils']),
+     rules=['EXC-ARGKIND', ('API-ARGSWAP', ['html_matcher', 'scanner_utils', 'scanner']), ('API-ONESHOT', ['html_matcher', 'scanner_utils', 'scanner']), ('RNG-NEGSLICE', ['html_matcher', 'scanner_utils', 'scanner']), ('SIB-PREDSWAP', ['html_matcher', 'scanner_utils', 'scanner']), ('OWN-GLOBAL', ['html_matcher', 'scanner_utils']), 'RNG-STRICT/html', 'TAB-VOID', 'EXC-THROWS', 'EXC-RAISE/matcher', ('RNG-STOP', ['html_matcher']), ('RNG-FRAME', ['html_matcher']), ('SCN-REST', ['html_matcher', 'scanner_utils']), ('SCN-OVER', ['html_matcher', 'scanner_utils']), ('SCN-PROGRESS', ['html_matcher', 'scanner_utils']),
             ('SCN-SKIP', ['html_matcher', 'scanner_utils']), ('SCN-BLIND', ['html_matcher', 'scanner_utils']), 'SIB-VOID', ('SIB-QUOTE', ['scanner_utils']), ('PATH-FLAG', ['html_matcher']), ('CNT-DEPTH', ['scanner_utils']),
             'SIB-HTMLSTACK', ('SIB-ESCAPE', ['scanner_utils']), ('SCN-ESCAPE', ['scanner_utils', 'html_matcher']), ('PIN-EXTRACT', ['html_matcher']), 'TBL-HTMLSCAN', ('DEC-CHARCLASS', ['html_matcher', 'scanner_utils'])],
      explanation='match and balanced_outward use one strict containment predicate with the same bounds (N); the void list is the HTML void set and '
@@ -96,7 +96,7 @@ prop('C09',
      technique='comparison-shape analysis; table agreement')
 
 prop('C10',
-     rules=[('API-ARGSWAP', ['css_matcher', 'scanner_utils', 'scanner']), ('API-ONESHOT', ['css_matcher', 'scanner_utils', 'scanner']), ('RNG-NEGSLICE', ['css_matcher', 'scanner_utils', 'scanner']), ('SIB-PREDSWAP', ['css_matcher', 'scanner_utils', 'scanner']), ('OWN-GLOBAL', ['css_matcher', 'scanner_utils']), 'RNG-STRICT/css', ('RNG-SENT', ['css_matcher']), 'RNG-PAREN', ('RNG-STOP', ['css_matcher']), 'RNG-SCANSTATE', ('SCN-REST', ['css_matcher']), ('SCN-OVER', ['css_matcher']), ('SCN-PROGRESS', ['css_matcher']),
+     rules=['EXC-ARGKIND', ('API-ARGSWAP', ['css_matcher', 'scanner_utils', 'scanner']), ('API-ONESHOT', ['css_matcher', 'scanner_utils', 'scanner']), ('RNG-NEGSLICE', ['css_matcher', 'scanner_utils', 'scanner']), ('SIB-PREDSWAP', ['css_matcher', 'scanner_utils', 'scanner']), ('OWN-GLOBAL', ['css_matcher', 'scanner_utils']), 'RNG-STRICT/css', ('RNG-SENT', ['css_matcher']), 'RNG-PAREN', ('RNG-STOP', ['css_matcher']), 'RNG-SCANSTATE', ('SCN-REST', ['css_matcher']), ('SCN-OVER', ['css_matcher']), ('SCN-PROGRESS', ['css_matcher']),
             ('SCN-SKIP', ['css_matcher']), ('SCN-BLIND', ['css_matcher']), ('SIB-QUOTE', ['css_matcher']), 'RNG-TRIM', ('RNG-ORDER', ['css_matcher']), ('DEC-CHARCLASS', ['css_matcher', 'scanner_utils']), ('CNT-DEPTH', ['css_matcher']), ('SIB-ESCAPE', ['css_matcher']), ('SCN-ESCAPE', ['css_matcher', 'scanner_utils']), 'TBL-CSSSCAN'],
      explanation='Strict containment (N); arithmetic on a delimiter that may be the -1 sentinel is guarded wherever it can reach a result (N); '
                  'delimiters inside parentheses (N, known finding).',
@@ -138,7 +138,7 @@ prop('C15',
      technique='reader/writer key agreement')
 
 prop('C16',
-     rules=[('API-ARGSWAP', ['html_matcher', 'css_matcher', 'scanner_utils', 'scanner']), ('API-ONESHOT', ['html_matcher', 'css_matcher', 'scanner_utils', 'scanner']), ('RNG-NEGSLICE', ['html_matcher', 'css_matcher', 'scanner_utils', 'scanner']), ('SIB-PREDSWAP', ['html_matcher', 'css_matcher', 'scanner_utils', 'scanner']), ('OWN-GLOBAL', ['html_matcher', 'css_matcher', 'scanner_utils']), ('SIB-QUOTE', ['css_matcher', 'html_matcher', 'scanner_utils']), 'SCN-CORE', ('SCN-OVER', MATCH_MODS), ('SCN-PROGRESS', MATCH_MODS), ('SCN-REST', MATCH_MODS), ('SCN-SKIP', MATCH_MODS), ('SCN-BLIND', MATCH_MODS), 'SIB-VOID', 'RNG-TRIM', 'RNG-ORDER', ('DEC-CHARCLASS', ['html_matcher', 'css_matcher', 'scanner_utils']),
+     rules=['EXC-ARGKIND', ('API-ARGSWAP', ['html_matcher', 'css_matcher', 'scanner_utils', 'scanner']), ('API-ONESHOT', ['html_matcher', 'css_matcher', 'scanner_utils', 'scanner']), ('RNG-NEGSLICE', ['html_matcher', 'css_matcher', 'scanner_utils', 'scanner']), ('SIB-PREDSWAP', ['html_matcher', 'css_matcher', 'scanner_utils', 'scanner']), ('OWN-GLOBAL', ['html_matcher', 'css_matcher', 'scanner_utils']), ('SIB-QUOTE', ['css_matcher', 'html_matcher', 'scanner_utils']), 'SCN-CORE', ('SCN-OVER', MATCH_MODS), ('SCN-PROGRESS', MATCH_MODS), ('SCN-REST', MATCH_MODS), ('SCN-SKIP', MATCH_MODS), ('SCN-BLIND', MATCH_MODS), 'SIB-VOID', 'RNG-TRIM', 'RNG-ORDER', ('DEC-CHARCLASS', ['html_matcher', 'css_matcher', 'scanner_utils']),
             ('PATH-FLAG', MATCH_MODS), ('CNT-DEPTH', MATCH_MODS), ('RNG-STOP', MATCH_MODS), 'RNG-SCANSTATE', ('RNG-FRAME', ['html_matcher']), 'SIB-HTMLSTACK', 'SIB-ESCAPE', 'SCN-ESCAPE', 'RNG-SENT', 'RNG-STRICT/html', 'RNG-STRICT/css', 'EXC-RAISE/matcher', 'EXC-THROWS', 'TBL-HTMLSCAN', 'TBL-CSSSCAN'],
      explanation='No explicit raise is reachable from the matchers (D); sentinel arithmetic guarded (N); strict containment (N).',
      not_decided=['relational clauses between match / balanced_outward / balanced_inward beyond predicate agreement'],
@@ -152,7 +152,7 @@ prop('C17',
      technique='sentinel-flow analysis')
 
 prop('C18',
-     rules=[('API-ARGSWAP', ['abbreviation.tokenizer', 'css_abbreviation.tokenizer', 'scanner', 'scanner_utils']), ('API-ONESHOT', ['abbreviation.tokenizer', 'css_abbreviation.tokenizer', 'scanner', 'scanner_utils']), ('RNG-NEGSLICE', ['abbreviation.tokenizer', 'css_abbreviation.tokenizer', 'scanner', 'scanner_utils']), ('SIB-PREDSWAP', ['abbreviation.tokenizer', 'css_abbreviation.tokenizer', 'scanner', 'scanner_utils']), ('OWN-GLOBAL', ['abbreviation.tokenizer', 'css_abbreviation.tokenizer', 'scanner', 'scanner_utils']), 'TBL-CSSABBR', ('TBL-NUMBER', ['css_abbreviation']), 'SCN-CORE', ('SCN-SPAN', TOK_MODS), ('SCN-REST', TOK_MODS), ('SCN-OVER', TOK_MODS), ('SCN-PROGRESS', TOK_MODS),
+     rules=['EXC-ARGKIND', ('API-ARGSWAP', ['abbreviation.tokenizer', 'css_abbreviation.tokenizer', 'scanner', 'scanner_utils']), ('API-ONESHOT', ['abbreviation.tokenizer', 'css_abbreviation.tokenizer', 'scanner', 'scanner_utils']), ('RNG-NEGSLICE', ['abbreviation.tokenizer', 'css_abbreviation.tokenizer', 'scanner', 'scanner_utils']), ('SIB-PREDSWAP', ['abbreviation.tokenizer', 'css_abbreviation.tokenizer', 'scanner', 'scanner_utils']), ('OWN-GLOBAL', ['abbreviation.tokenizer', 'css_abbreviation.tokenizer', 'scanner', 'scanner_utils']), 'TBL-CSSABBR', ('TBL-NUMBER', ['css_abbreviation']), 'SCN-CORE', ('SCN-SPAN', TOK_MODS), ('SCN-REST', TOK_MODS), ('SCN-OVER', TOK_MODS), ('SCN-PROGRESS', TOK_MODS),
             ('EXC-NUMCONV', TOK_MODS), ('EXC-RAISE/expand', TOK_MODS + ['scanner']), ('CNT-DEPTH', TOK_MODS), ('SCN-SKIP', TOK_MODS), ('SCN-BLIND', TOK_MODS), ('SIB-QUOTE', TOK_MODS), ('DEC-CHARCLASS', TOK_MODS + ['scanner_utils'])],
      explanation='(partial, SCN-* cursor discipline rules being built) digit runs are converted only after a successful run with start set.',
      not_decided=['span tiling until SCN-* exists'],
